@@ -564,6 +564,18 @@ def mon_C12(ctx, k, sc, tr, stats):
                         ctx.violation("C12.survival.%s" % ("rate_lt_1" if act else "other_cell"),
                                       "step %d host %d cell %d survival rate %s: %s -> %s" % (step, h, i, rates[i] if rates else None, fmt_cell(p), fmt_cell(c)), sc.text)
                         return
+    # every establishment goes through the establishment test: the susceptibles consumed by a
+    # dispersal action are exactly the tests that succeeded (a disperser that establishes without a
+    # test - e.g. because a shortcut skipped it - did not "establish with the cell's probability")
+    for prev, step, tag, idx, st in iter_pairs(sc, tr):
+        if tag != "spread":
+            continue
+        consumed = sum(p["S"] - c["S"] for h in range(len(st["hosts"])) for p, c in zip(prev["hosts"][h], st["hosts"][h]))
+        passed = sum(1 for ev in tr["tapes"].get(step, []) if ev.startswith("establish:") and ev.endswith(":1"))
+        stats["establishments"] = stats.get("establishments", 0) + consumed
+        if consumed != passed:
+            ctx.violation("C12.establish.without_test", "step %d: %d susceptible hosts were infected/exposed by dispersal, but %d establishment tests succeeded" % (step, consumed, passed), sc.text)
+            return
     # establishment decisions on the tape: established exactly when tester < probability;
     # deterministic establishment uses tester = 1 - establishment probability
     det = sc.kv["stoch"][1] == "0"
